@@ -23,8 +23,22 @@ def helper_function():
     return 'helper'
 
 
+class TransientError(Exception):
+    """what user code (a constructor, a load) raises once in a while; the program catches it and tries again"""
+
+
+FAIL = {'ctor': 0}      # > 0: the next constructor of a described component / processor raises TransientError
+
+
+def _maybe_fail():
+    if FAIL['ctor'] > 0:
+        FAIL['ctor'] -= 1
+        raise TransientError('constructor failed')
+
+
 class _Rec:
     def __init__(self, *args, **kwargs):
+        _maybe_fail()
         self.args = args
         self.kwargs = kwargs
 
@@ -65,6 +79,7 @@ COMPONENT_TYPES = ['PlainA', 'PlainB', 'HandlerA', 'HandlerB', 'LoadOnly']
 
 class _Proc(desper.Processor):
     def __init__(self, *args, **kwargs):
+        _maybe_fail()
         self.args = args
         self.kwargs = kwargs
 
